@@ -143,7 +143,7 @@ func BlockSpec(in BlockIn) BlockOut {
 	case 0, 1:
 		o.FMask = 0xd7
 	default:
-		o.FMask = 0x42
+		o.FMask = 0x40 // Z only: N is documented as set, real chips make it bit 7 of the data
 	}
 	o.FVal = f & o.FMask
 	return o
